@@ -3,11 +3,16 @@
 apply to /repo, check, undo) and record the verdict in seeded/<id>/meta.json and seeded/RESULTS.md."""
 import json, os, re, subprocess, sys
 tier = sys.argv[1] if len(sys.argv) > 1 else "quick"
+only = sys.argv[2:]  # optional id prefixes: run only these, keep the recorded verdicts of the others
 os.chdir("/verif")
 rows = []
 for sid in sorted(os.listdir("seeded")):
     d = f"seeded/{sid}"
     if not os.path.isdir(d): continue
+    if only and not any(sid.startswith(o) for o in only):
+        cr = json.load(open(f"{d}/meta.json")).get("check_result", {}).get(tier, {})
+        rows.append((sid, cr.get("verdict", "not recorded"), cr.get("detail", "")))
+        continue
     out = subprocess.run(["./tools/try_seeded.sh", f"{d}/patch.diff", tier], capture_output=True, text=True).stdout
     ex = re.search(r"exit=(\d+)", out)
     v = re.search(r"violation in run (\d+) of seed (\d+): (\S+) at step (\S+) \((\w+)\): (.*)", out)
